@@ -17,6 +17,7 @@ From CB Require Import Trie.NibblesProofs.
 From CB Require Import Trie.Arena.
 From CB Require Import Trie.ArenaProofs.
 From CB Require Import Trie.ArenaCow.
+From CB Require Import Trie.ArenaTree.
 Import ListNotations.
 Local Open Scope N_scope.
 
@@ -290,9 +291,14 @@ Print Assumptions arena_copy_on_write_example.
     only point above the checkpoint, shared ones are copied by [make_owned] before a walk
     descends, entries of such nodes and the values of their [Mutable] entries lie above
     the checkpoint, and so do the handles of the generation.
-    [as_exec] runs a history and checks at every [new_generation] that the generation tag
-    of the root equals the number of the current generation ([tag_ok]; see design notes:
-    this one fact is checked at run time, not derived). *)
+    [TInv] (ArenaTree.v) is the tree-shape invariant: counting the root pointer and the
+    children vectors of the nodes above the checkpoint that are tagged with the node's own
+    generation, every node index is referenced at most once; whatever is referenced lies
+    inside the node vector and carries the number of the current generation; shared
+    children vectors and the nodes below the checkpoint only point below the checkpoint.
+    Nodes emptied by [mem::take] (the default node left behind by a collapse) are never
+    referenced.  That the generation tag of the root equals the number of the current
+    generation (which [new_generation] relies on) is a consequence. *)
 
 (** Every operation other than [new_generation] / [normalize] - insert, lookup (which
     copies on the way down), read, set, get_mut, delete with its collapses, delete_prefix
@@ -313,54 +319,76 @@ Theorem arena_new_generation_invariant : forall a,
 Proof. exact new_generation_inv. Qed.
 Print Assumptions arena_new_generation_invariant.
 
-(** Reachable states satisfy the invariant. *)
-Theorem arena_reachable_invariant : forall ops s,
-  as_exec ops as_init = Some s -> SInv s /\ exists saved, Hist s saved.
-Proof. exact reachable_inv. Qed.
+(** The tree-shape invariant is preserved by every operation other than [new_generation] /
+    [normalize] ... *)
+Theorem arena_tree_invariant_step : forall o s,
+  SInv s -> TInv (as_arena s) -> gen_op o = false -> TInv (as_arena (fst (as_step o s))).
+Proof. exact as_step_t. Qed.
+Print Assumptions arena_tree_invariant_step.
+
+(** ... it implies that the root carries the number of the current generation ... *)
+Theorem arena_tree_invariant_tag : forall a, TInv a -> root_tag_ok a = true.
+Proof. exact tinv_tag_ok. Qed.
+Print Assumptions arena_tree_invariant_tag.
+
+(** ... and [new_generation] establishes it for the new generation (no side condition). *)
+Theorem arena_new_generation_tree_invariant : forall a,
+  AInv a -> TInv a -> a_gens a <> [] -> TInv (a_new_generation a).
+Proof. exact new_generation_t. Qed.
+Print Assumptions arena_new_generation_tree_invariant.
+
+(** Every state reached by any history from the initial state satisfies the ownership
+    invariant, the tree-shape invariant, and has a stack of saved states (one per older
+    generation) satisfying the same. *)
+Theorem arena_reachable_invariant : forall ops, Reach (as_run ops as_init).
+Proof. exact (fun ops => Reach_run ops as_init Reach_init). Qed.
 Print Assumptions arena_reachable_invariant.
+
+(** The assertion of the extracted runner ([!TAG]) is a lemma: in every reachable state the
+    generation tag of the root is the number of the current generation; hence the checked
+    run [as_exec] of ArenaCow.v is the plain run. *)
+Theorem arena_root_tag_reachable : forall ops, root_tag_ok (as_arena (as_run ops as_init)) = true.
+Proof. exact reachable_tag_ok. Qed.
+Print Assumptions arena_root_tag_reachable.
+
+Theorem arena_checked_run_is_run : forall pre ops,
+  as_exec ops (as_run pre as_init) = Some (as_run ops (as_run pre as_init)).
+Proof. exact (fun pre ops => as_exec_run ops _ (Reach_run pre as_init Reach_init)). Qed.
+Print Assumptions arena_checked_run_is_run.
 
 (** No leak: in every reachable state, after a checkpoint and any operations that do not
     roll back below it (including nested checkpoints and rollbacks), the node, value,
     entry and generation vectors of the state at the checkpoint are still a prefix of the
     current ones. *)
-Theorem arena_no_leak : forall pre ops s c,
-  as_exec pre as_init = Some s ->
+Theorem arena_no_leak : forall pre ops,
+  let s := as_run pre as_init in
+  let c := as_run (ONewGen :: ops) s in
   Forall (keeps (length (a_gens (as_arena s)))) ops ->
-  as_exec (ONewGen :: ops) s = Some c ->
   firstn (length (a_nodes (as_arena s))) (a_nodes (as_arena c)) = a_nodes (as_arena s)
   /\ firstn (length (a_values (as_arena s))) (a_values (as_arena c)) = a_values (as_arena s)
   /\ firstn (length (a_entries (as_arena s))) (a_entries (as_arena c)) = a_entries (as_arena s)
   /\ firstn (length (a_gens (as_arena s))) (a_gens (as_arena c)) = a_gens (as_arena s).
-Proof.
-  exact (fun pre ops s c Hpre Hk Hex =>
-    match reachable_inv pre s Hpre with
-    | conj HS (ex_intro _ saved HH) => arena_no_leak_hist s saved ops c HH HS Hk Hex
-    end).
-Qed.
+Proof. exact arena_no_leak_run. Qed.
 Print Assumptions arena_no_leak.
 
 (** Rollback restores: ... and rolling back to the checkpoint gives back exactly the arena
     (all four vectors) and the handle tables of the state at the checkpoint. *)
-Theorem arena_rollback_restores : forall pre ops s c,
-  as_exec pre as_init = Some s ->
+Theorem arena_rollback_restores : forall pre ops,
+  let s := as_run pre as_init in
   Forall (keeps (length (a_gens (as_arena s)))) ops ->
-  as_exec (ONewGen :: ops ++ [ONormalize (length (a_gens (as_arena s)) - 1)]) s = Some c ->
-  c = s.
-Proof.
-  exact (fun pre ops s c Hpre Hk Hex =>
-    match reachable_inv pre s Hpre with
-    | conj HS (ex_intro _ saved HH) => arena_rollback_hist s saved ops c HH HS Hk Hex
-    end).
-Qed.
+  as_run (ONewGen :: ops ++ [ONormalize (length (a_gens (as_arena s)) - 1)]) s = s.
+Proof. exact arena_rollback_run. Qed.
 Print Assumptions arena_rollback_restores.
 
 Example arena_rollback_nonvacuous :
   let pre := [OInsert [18] [1]; OInsert [19] [2]; ONewGen; OInsert [20] []] in
   let ops := [OInsert [18] [9]; ODelete [19]; ONewGen; ODeletePrefix []; ONormalize 2; OGet [18]] in
-  exists s, as_exec pre as_init = Some s
-    /\ Forall (keeps (length (a_gens (as_arena s)))) ops
-    /\ as_exec (ONewGen :: ops ++ [ONormalize (length (a_gens (as_arena s)) - 1)]) s = Some s.
-Proof. eexists. split; [vm_compute; reflexivity|]. split; [repeat constructor | vm_compute; reflexivity]. Qed.
+  let s := as_run pre as_init in
+  Forall (keeps (length (a_gens (as_arena s)))) ops
+  /\ sizes (as_arena s) = [7; 5; 3; 2]%nat
+  /\ sizes (as_arena (as_run (ONewGen :: ops) s)) = [11; 8; 4; 3]%nat
+  /\ as_run (ONewGen :: ops ++ [ONormalize (length (a_gens (as_arena s)) - 1)]) s = s.
+Proof. split; [repeat constructor | vm_compute; repeat split]. Qed.
 Print Assumptions arena_rollback_nonvacuous.
 
 (** ** Non-vacuity: concrete histories exercising the interesting shapes *)
